@@ -120,7 +120,7 @@ pub fn cmd_codec(args: &[String]) {
             rep.fail("HARNESS: object of Codec.tla has no dispatch arm", o.clone());
         }
     }
-    for len in 0..=lmax {
+    for len in (0..=lmax).chain([4095usize, 4096, 4097, 8193].iter().copied()) {
         let strict = len == 5;     // deviations once, round trips for every payload length
         let msg = rng.bytes(len);
         let key = S32::from(&rng.arr::<32>());
@@ -181,6 +181,35 @@ pub fn cmd_codec(args: &[String]) {
                 }
                 Ok(Err(e)) => rep.fail("PwHash: from_string rejects to_string output", json!({"err": format!("{:?}", e)})),
                 Err(p) => rep.fail("PwHash: from_string panics on to_string output", json!({"panic": p})),
+            }
+            // an Argon2i object (Config has no setter for the algorithm: such an object comes from a string or from serde):
+            // string -> object -> string is the identity, the object survives serde, and it still verifies
+            let mut sbuf = [0i8; 128];
+            let rc = unsafe { libsodium_sys::crypto_pwhash_str_alg(sbuf.as_mut_ptr(), msg.as_ptr() as *const _, msg.len() as u64, 3, 8192, 1) };
+            if rc == 0 {
+                let sref: String = sbuf.iter().take_while(|c| **c != 0).map(|c| *c as u8 as char).collect();
+                rep.evaluations += 1;
+                rep.case(&format!("pwhash-argon2i-string|{}", len));
+                match catch(|| dryoc::pwhash::PwHash::<Vec<u8>, Vec<u8>>::from_string(&sref)) {
+                    Ok(Ok(pi)) => {
+                        let again = pi.to_string();
+                        if again != sref { rep.fail("PwHash (Argon2i): from_string then to_string yields a different string", json!({"string": sref, "reencoded": again})); }
+                        if pi.verify(&msg).is_err() { rep.fail("PwHash (Argon2i): parsed object rejects the right password", json!({"string": sref})); }
+                        match serde_json::from_str::<dryoc::pwhash::PwHash<Vec<u8>, Vec<u8>>>(&serde_json::to_string(&pi).unwrap()) {
+                            Ok(pj) => {
+                                if pj.to_string() != sref { rep.fail("PwHash (Argon2i): json round trip yields a different object", json!({"string": sref, "after": pj.to_string()})); }
+                                if pj.verify(&msg).is_err() { rep.fail("PwHash (Argon2i): decoded object no longer verifies", json!({"string": sref})); }
+                            }
+                            Err(e) => rep.fail("PwHash (Argon2i): json round trip fails", json!({"err": e.to_string()})),
+                        }
+                        match bincode::deserialize::<dryoc::pwhash::PwHash<Vec<u8>, Vec<u8>>>(&bincode::serialize(&pi).unwrap()) {
+                            Ok(pj) => if pj.to_string() != sref || pj.verify(&msg).is_err() { rep.fail("PwHash (Argon2i): bincode round trip yields a different object", json!({"string": sref, "after": pj.to_string()})); },
+                            Err(e) => rep.fail("PwHash (Argon2i): bincode round trip fails", json!({"err": e.to_string()})),
+                        }
+                    }
+                    Ok(Err(e)) => rep.fail("PwHash (Argon2i): from_string rejects a libsodium string", json!({"string": sref, "err": format!("{:?}", e)})),
+                    Err(p) => rep.fail("PwHash (Argon2i): from_string panics", json!({"string": sref, "panic": p})),
+                }
             }
         }
         #[cfg(feature = "nightly")]
